@@ -77,6 +77,14 @@ func (hs *heightSub) SetHeight(height uint64) {
 // It can return errElapsedHeight, which means a requested height was already seen
 // and caller should get it elsewhere.
 func (hs *heightSub) Wait(ctx context.Context, height uint64) error {
+	return hs.WaitOr(ctx, height, nil)
+}
+
+// WaitOr is like [Wait], but once the wait for the height is registered it additionally asks ready,
+// and does not wait if ready reports true.
+// This closes the gap between a failed lookup of the caller and the registration, in which a
+// non-adjacent header may be published without advancing the height.
+func (hs *heightSub) WaitOr(ctx context.Context, height uint64, ready func() bool) error {
 	if hs.Height() >= height {
 		return errElapsedHeight
 	}
@@ -99,6 +107,18 @@ func (hs *heightSub) Wait(ctx context.Context, height uint64) error {
 	}
 	sac.count++
 	hs.heightSubsLk.Unlock()
+
+	if ready != nil && ready() {
+		hs.heightSubsLk.Lock()
+		select {
+		case <-sac.signal:
+			// notified in the meantime and so already unregistered
+		default:
+			hs.notify(height, false)
+		}
+		hs.heightSubsLk.Unlock()
+		return nil
+	}
 
 	select {
 	case <-sac.signal:
